@@ -62,18 +62,18 @@ BaseIsDistance == \A i \in 1..Len(entries) : entries[i].base = SumLen(entries, i
 CurrentRetained == entries = <<>> \/ entries[Len(entries)].base = 0
 
 \* ---- Part 2: the contract of one block's reports ------------------------------------------------------
-MinMatch == 5
+\* minimum match length: 5 for the built-in finder, 3 for what the format (and a user supplied matcher) may report
 \* data: all bytes committed since the last reset (1-based); the block occupies start+1 .. endpos; lo = first retained
 \* position (0-based); ws = advertised window; seqs: <<literals, offset, length>> with <<lits, 0, 0>> as trailing literals
-RECURSIVE SeqsOk(_, _, _, _, _, _, _)
-SeqsOk(data, seqs, i, pos, lo, endpos, ws) ==
+RECURSIVE SeqsOk(_, _, _, _, _, _, _, _)
+SeqsOk(data, seqs, i, pos, lo, endpos, ws, mm) ==
     IF i > Len(seqs) THEN pos = endpos
     ELSE LET lits == seqs[i][1]  off == seqs[i][2]  len == seqs[i][3]
              p1 == pos + Len(lits)
          IN /\ p1 <= endpos
             /\ \A k \in 1..Len(lits) : data[pos + k] = lits[k]
             /\ IF off = 0 /\ len = 0 THEN i = Len(seqs) /\ Len(lits) > 0 /\ p1 = endpos            \* trailing literals
-               ELSE /\ len >= MinMatch /\ off >= 1 /\ off <= ws /\ p1 - off >= lo /\ p1 + len <= endpos
+               ELSE /\ len >= mm /\ off >= 1 /\ off <= ws /\ p1 - off >= lo /\ p1 + len <= endpos
                     /\ \A k \in 1..len : data[p1 - off + k] = data[p1 + k]
-                    /\ SeqsOk(data, seqs, i + 1, p1 + len, lo, endpos, ws)
+                    /\ SeqsOk(data, seqs, i + 1, p1 + len, lo, endpos, ws, mm)
 =============================================================================
